@@ -143,6 +143,21 @@ def decObjOp (v : V) : Option (Obj.Op Nat Obj.Term × Bool) :=
 def encObjOut : Obj.Out → V
   | .done => .atom "done" | .raised => .atom "raised" | .column _ => .atom "column"
 def encOptV {α} (f : α → V) : Option α → V | none => .atom "None" | some a => f a
+def decGOp (v : V) : Option (Obj.GOp Nat Obj.Term × List Bool) :=
+  match v with
+  | .list [op, flags] => do
+    let flags ← flags.listOf? V.bool?
+    let op ← (match op with
+      | .list [.atom "gfit", xs] => (xs.listOf? V.nat?).map Obj.GOp.fit
+      | .list [.atom "gedges", r] => (r.opt? V.rat?).map Obj.GOp.edges
+      | .list [.atom "mrebind", i, th] => do let i ← i.nat?; let th ← th.listOf? decKV; pure (Obj.GOp.modelRebind i th)
+      | .list [.atom "mfit", i, x] => do let i ← i.nat?; let x ← x.nat?; pure (Obj.GOp.modelFit i x)
+      | _ => none)
+    pure (op, flags)
+  | _ => none
+def encGObj (g : Obj.GObj Nat Obj.Term) : V :=
+  .list [encSettings g.st, encList encNat g.sigs, encList encTerm g.dfs,
+         encList (fun (m : Obj.Obj Nat Obj.Term) => .list [encSettings m.st, encOptV encNat m.sig, encOptV encTerm m.df]) g.models]
 
 def handle (args : List V) : V :=
   match args with
@@ -413,6 +428,12 @@ def handle (args : List V) : V :=
       .list (.list [.atom "constructed", encSettings o.st, .atom "None", .atom "None"] ::
         (Obj.trace o ops).map fun (out, o') => .list [encObjOut out, encSettings o'.st, encOptV encNat o'.sig, encOptV encTerm o'.df])
     | _, _, _, _, _, _, _ => bad "obj.trace"
+  | [.atom "group.trace", peak, cycles, th, ops] =>
+    match peak.bool?, cycles.bool?, th.opt? (V.listOf? decKV), ops.listOf? decGOp with
+    | some peak, some cycles, some th, some ops =>
+      let o : Obj.Obj Nat Obj.Term := Obj.construct peak cycles none th none true
+      .list ((Obj.gtrace (Obj.freshGroup o.st) ops).map fun (out, g) => .list [encObjOut out, encGObj g])
+    | _, _, _, _ => bad "group.trace"
   -- C20: marker indices / burst highlight for a view lo … lo+len-1; `x` is the float product the source truncates or rounds
   | [.atom "plot.markers", lo, len, x, pts] =>
     match lo.nat?, len.nat?, x.rat?, pts.listOf? V.int? with
